@@ -67,3 +67,22 @@ class Sink:
 
     def flush(self):
         pass
+
+
+class nosym:
+    """Run a concrete (symbol-free) set-up block without CrossHair's tracing overhead."""
+    def __enter__(self):
+        self._cm = None
+        try:
+            from crosshair.tracers import NoTracing, is_tracing
+            if is_tracing():
+                self._cm = NoTracing()
+                self._cm.__enter__()
+        except ImportError:
+            pass
+        return self
+
+    def __exit__(self, *a):
+        if self._cm is not None:
+            self._cm.__exit__(*a)
+        return False
